@@ -27,8 +27,51 @@ def jArr2 (a : Arr2 Int) (full : Bool) : Json :=
     jObj (base ++ [("data", jList (fun r => jList (fun c => jInt (a.get r c)) (List.range a.cols)) (List.range a.rows))])
   else jObj base
 
+def jCfgState (c : Cfg) : Json :=
+  match c with
+  | .raster s v t => jObj [("kind", jStr "raster"), ("spotsize", jRat s), ("speed", jRat v), ("scantime", jRat t)]
+  | .spot x y => jObj [("kind", jStr "spot"), ("sx", jRat x), ("sy", jRat y)]
+
+def jView (v : Option (Cfg × Nat × Nat)) : Json :=
+  match v with
+  | some (c, rows, cols) => jObj [("cfg", jCfgState c), ("rows", jNat rows), ("cols", jNat cols)]
+  | none => Json.null
+
+def parseAttr (s : String) : R Attr :=
+  match s with
+  | "spotsize" => pure .spotsize
+  | "speed" => pure .speed
+  | "scantime" => pure .scantime
+  | "spotsize_y" => pure .spotsizeY
+  | _ => throw s!"unknown attribute {s}"
+
+/-- one entry of a history: an operation, or an observation of a laser -/
+def parseHOp (j : Json) : R (Sum HOp Nat) := do
+  match (← getStr j "op") with
+  | "newCfg" => pure (.inl (.newCfg (.ofCfg (← fld j "cfg" >>= parseCfg))))
+  | "copyCfg" => pure (.inl (.copyCfg (← getNat j "src")))
+  | "newLaser" => pure (.inl (.newLaser (← getNat j "cfg") (← getNat j "rows") (← getNat j "cols")))
+  | "setCfg" => pure (.inl (.setCfg (← getNat j "laser") (← getNat j "cfg")))
+  | "setAttr" => pure (.inl (.setAttr (← getNat j "cfg") (← getStr j "attr" >>= parseAttr) (← getRat j "value")))
+  | "setData" => pure (.inl (.setData (← getNat j "laser") (← getNat j "rows") (← getNat j "cols")))
+  | "obs" => pure (.inr (← getNat j "laser"))
+  | o => throw s!"unknown history op {o}"
+
 def handle (op : String) (req : Json) : R Json := do
   match op with
+  | "c10.heap" =>
+    -- a history on configuration objects and lasers; at every observation: what the laser shows according to the
+    -- mechanism (`Heap.run` of the operations so far) and to the specification (`viewSpec`, the history read backwards)
+    let entries ← getList parseHOp req "ops"
+    let (_, _, out) := entries.foldl (fun (acc : Heap × List HOp × List Json) e =>
+      let (h, rev, out) := acc
+      match e with
+      | .inl o => (h.step o, o :: rev, out)
+      | .inr l => (h, rev, out ++ [jObj [("model", jView (h.view l)), ("spec", jView (viewSpec rev l)),
+                                        ("model_extent", match h.extent l with | some e => jExt e | none => Json.null),
+                                        ("spec_extent", match extentHistSpec rev l with | some e => jExt e | none => Json.null)]]))
+      (({ cfgs := [], lasers := [] } : Heap), [], [])
+    pure (jObj [("obs", Json.arr out.toArray)])
   | "c10.extent" =>
     let c ← fld req "cfg" >>= parseCfg
     let rows ← getNat req "rows"
@@ -49,7 +92,11 @@ def handle (op : String) (req : Json) : R Json := do
     pure (jObj [
       ("model", jObj [("pw", jRat c.pixelWidth), ("ph", jRat c.pixelHeight),
                       ("extent", jExt (laserExtent c data)), ("data_extent", jExt (c.dataExtent [rows, cols])),
-                      ("array", jRec c.toRec), ("roundtrip", rt), ("from_arrays", Json.arr fromReal.toArray)]),
+                      ("array", jRec c.toRec), ("dtypes", jList jStr c.arrayDtypes), ("roundtrip", rt),
+                      ("from_arrays", Json.arr fromReal.toArray)]),
+      -- the same in float64 (`fl`): what CPython evaluates when no intermediate leaves the normal exponent range
+      ("modelF", jObj [("pw", jRat c.pixelWidthF), ("ph", jRat c.pixelHeightF), ("extent", jExt (laserExtentF c data))]),
+      ("positive", jBool (match c with | .raster s v t => decide (0 < s ∧ 0 < v ∧ 0 < t) | .spot x y => decide (0 < x ∧ 0 < y))),
       ("spec", jObj [("extent", jExt sp),
                      ("pw", jRat (match c with | .raster _ v t => v * t | .spot sx _ => sx)),
                      ("ph", jRat (match c with | .raster s _ _ => s | .spot _ sy => sy))])])
@@ -67,6 +114,12 @@ def handle (op : String) (req : Json) : R Json := do
       let qs := [x0 / c.pixelWidth, x1 / c.pixelWidth, y0 / c.pixelHeight, y1 / c.pixelHeight]
       pure (jObj [
         ("model", jArr2 (get c data ext) full),
+        -- the float64 pipeline, and whether each bound counts as "near its pixel boundary" (hypotheses of `get_float_config`)
+        ("modelF", jArr2 (getF c data ext) full),
+        ("indicesF", jList (fun q => jInt (toIndex (fl q))) [x0 / c.pixelWidthF, x1 / c.pixelWidthF, y0 / c.pixelHeightF, y1 / c.pixelHeightF]),
+        ("near", jList jBool [decide (NearBoundary x0 c.pixelWidthF c0), decide (NearBoundary x1 c.pixelWidthF c1),
+                              decide (NearBoundary y0 c.pixelHeightF r0), decide (NearBoundary y1 c.pixelHeightF r1)]),
+        ("pwF", jRat c.pixelWidthF), ("phF", jRat c.pixelHeightF),
         ("indices", jList (fun q => jInt (toIndex q)) qs),
         ("indices_old", jList (fun q => jInt (toIndexOld q)) qs),
         ("margins", jList (fun q => jRat (tieMargin q)) qs),
